@@ -323,6 +323,11 @@ func Run(c *common.Ctx) error {
 			return err
 		}
 	}
+	for i := 0; i < c.Pick(3, 6); i++ {
+		if err := expiredHolderCommits(c, c.Rng.Fork(), i); err != nil {
+			return err
+		}
+	}
 	return nil
 }
 
@@ -414,6 +419,83 @@ func importWaitingAtDemotion(c *common.Ctx, r *common.Rand, idx int) error {
 	}
 	if ex := p.Exits(); len(ex) > 0 {
 		c.Violate(key+":exit", fmt.Sprintf("the node called Exit(%v)", ex), rep)
+	}
+	return nil
+}
+
+// expiredHolderCommits: a replica holds the halt lock and is in the middle of a transaction when the lock expires on
+// the primary (the replica is not told). Its write authority is gone: the commit must not be published anywhere.
+func expiredHolderCommits(c *common.Ctx, r *common.Rand, idx int) error {
+	dir, err := os.MkdirTemp(c.OutDir, "c07x-")
+	if err != nil {
+		return err
+	}
+	defer os.RemoveAll(dir)
+	clu := cluster.New(dir, 2*time.Second)
+	defer clu.Close()
+	clu.Opts = func(name string, s *litefs.Store) {
+		s.HaltLockTTL = 5 * time.Minute
+		s.HaltLockMonitorInterval = time.Hour
+	}
+	p, err := clu.Start("p", true)
+	if err != nil {
+		return err
+	}
+	if clu.WaitPrimary(5*time.Second) == nil {
+		return fmt.Errorf("no primary")
+	}
+	rn, err := clu.Start("r", false)
+	if err != nil {
+		return err
+	}
+	h := hist.NewOn(c, r.Fork(), hist.Config{PageSize: 512}, p.Store, p.Exits, "db", nil, 0, false)
+	if err := commitN(h, 2, false); err != nil {
+		return err
+	}
+	pp := p.Store.DB("db").Pos()
+	if !cluster.WaitPos(rn, "db", uint64(pp.TXID), uint64(pp.PostApplyChecksum), 10*time.Second) {
+		return fmt.Errorf("replica did not catch up")
+	}
+	pdb, rdb := p.Store.DB("db"), rn.Store.DB("db")
+	if _, err := rdb.AcquireRemoteHaltLock(ctx, int64(60+idx)); err != nil {
+		return fmt.Errorf("halt lock: %v", err)
+	}
+	pbefore, rbefore := snapshot(p, "db"), snapshot(rn, "db")
+	cur, _ := lfs.ReadImage(filepath.Dir(rdb.DatabasePath()))
+	hr := hist.NewOn(c, r.Fork(), hist.Config{PageSize: 512}, rn.Store, rn.Exits, "db", cur, rbefore.txid, false)
+	hr.Pager.RollbackOnCommitError = true
+	hr.Pager.BeforeCommit = func() { // the lock runs out on the primary between the replica's page writes and its commit
+		pdb.VerifExpireHaltLock()
+		p.Store.EnforceHaltLockExpiration(ctx)
+	}
+	var ob hist.Obs
+	for tries := 0; tries < 100; tries++ {
+		st := hr.GenStep()
+		if st.Op != "rtx" {
+			continue
+		}
+		st.Outcome, st.ToWAL, st.Spill, st.JMode = 0, false, 0, idx%3
+		ob = hr.Exec(st)
+		break
+	}
+	time.Sleep(50 * time.Millisecond)
+	pafter, rafter := snapshot(p, "db"), snapshot(rn, "db")
+	c.Evaluations++
+	c.Distinct(fmt.Sprintf("expired-holder-commits:%d", idx%3))
+	rep := map[string]any{"kind": "readonly-expired-holder", "journal_mode": idx % 3, "commit_answer": ob.Err}
+	key := "C07:expired-holder-commits"
+	if pdb.VerifHaltLockID() != 0 {
+		c.Count("expiry_not_effective", 1)
+		return nil
+	}
+	if pafter.txid != pbefore.txid || pafter.chk != pbefore.chk || pafter.ltx != pbefore.ltx {
+		c.Violate(key+":primary-published", fmt.Sprintf("the halt lock had expired on the primary when the replica committed, yet the primary published the transaction: (%d,%016x) -> (%d,%016x), log [%s] -> [%s]", pbefore.txid, pbefore.chk, pafter.txid, pafter.chk, pbefore.ltx, pafter.ltx), rep)
+	}
+	if rafter.txid != rbefore.txid || rafter.chk != rbefore.chk || rafter.ltx != rbefore.ltx || rafter.hash != rbefore.hash {
+		c.Violate(key+":replica-published", fmt.Sprintf("the replica, whose halt lock had expired, changed its copy of the database: %+v -> %+v (the commit answered %q)", rbefore, rafter, ob.Err), rep)
+	}
+	if ex := append(p.Exits(), rn.Exits()...); len(ex) > 0 {
+		c.Violate(key+":exit", fmt.Sprintf("a node called Exit(%v)", ex), rep)
 	}
 	return nil
 }
